@@ -239,14 +239,44 @@ struct Keys {
 
 fn make_keys(cfg: &HsCfg) -> Option<Keys> {
     let mut r = Rng64(cfg.seed ^ 0x6b657973);
-    let s_i = r.bytes(32);
-    let s_r = r.bytes(32);
+    let mut s_i = r.bytes(32);
+    let mut s_r = r.bytes(32);
     let e_i = r.bytes(32);
     let e_r = r.bytes(32);
+    // in a fifth of the configurations: static keys whose PUBLIC key ends in a zero byte (or starts with one, for
+    // 32-byte keys): a reported key whose length is inferred from its contents comes out short (found by search)
+    if cfg.seed % 5 == 0 {
+        for sk in [&mut s_i, &mut s_r] {
+            let mut sr = Rng64(cfg.seed ^ 0x7a65726f);
+            for _ in 0..3000 {
+                let cand = sr.bytes(32);
+                if let Some(p) = pub_of(&cfg.res_i, &cfg.dh, &cand) {
+                    if p.last() == Some(&0) || (p.len() == 32 && p[0] == 0 && cfg.seed % 10 == 0) {
+                        *sk = cand;
+                        break;
+                    }
+                } else {
+                    break;
+                }
+            }
+            let _ = sr.next();
+        }
+    }
     let pub_i = pub_of(&cfg.res_i, &cfg.dh, &s_i)?;
     let pub_r = pub_of(&cfg.res_r, &cfg.dh, &s_r)?;
     let pub_x = pub_of(&cfg.res_r, &cfg.dh, &[0x42u8; 32])?;
-    let psk = (0..10).map(|_| r.bytes(32)).collect();
+    // psk values: mostly random; in some configurations the all-zero or the all-0xff key, or the same key in every slot
+    // (a value is a value: "supplied" must not be inferred from the bytes)
+    let psk_style = cfg.seed % 11;
+    let shared = r.bytes(32);
+    let psk = (0..10)
+        .map(|i| match (psk_style, i % 3) {
+            (0, _) | (1, 0) => vec![0u8; 32],
+            (2, 1) => vec![0xffu8; 32],
+            (3, _) => shared.clone(),
+            _ => r.bytes(32),
+        })
+        .collect();
     Some(Keys { s_i, s_r, e_i, e_r, pub_i, pub_r, pub_x, psk, rng_i: r.bytes(640), rng_r: r.bytes(640) })
 }
 
@@ -516,12 +546,15 @@ pub fn run_hs(cfg: &HsCfg, sc: &mut Sc) -> HsTrace {
                 },
                 Fault::WriteOversize => {
                     sc.count("fault.write_oversize");
-                    let big = 65536 - overhead;
+                    // one to sixteen bytes over the limit, into buffers just past 65535 bytes and generous ones
+                    let over = [1usize, 1, 2, 15, 16][r.below(5)];
+                    let big = 65535 + over - overhead;
                     let p = r.bytes(big);
-                    let o = sc.ex.hs_write(w, &p, 70000);
+                    let wcap = [70000usize, 65536, 65535 + over, 65535 + over + 15, 65551, 65552, 131070][r.below(7)];
+                    let o = sc.ex.hs_write(w, &p, wcap);
                     sc.check_panic(&o, "hs_write oversize");
                     if o.err() != Some("Input") {
-                        sc.viol("C14", format!("{name}: message {k} of 65536 bytes gave {o:?}, not Input"));
+                        sc.viol("C14", format!("{name}: message {k} of {} bytes into a {wcap}-byte buffer gave {o:?}, not Input", 65535 + over));
                     }
                 },
                 Fault::MissingPsk => {
